@@ -117,8 +117,15 @@ def _status(fut_exc, done):
         return 3
     if isinstance(exc, BusyResourceError):
         return 4
-    if isinstance(exc, BaseExceptionGroup) and all(isinstance(e, RuntimeError) and "shutting down" in str(e) for e in exc.exceptions):
-        return 5
+    if isinstance(exc, BaseExceptionGroup):
+        def leaves(e):
+            if isinstance(e, BaseExceptionGroup):
+                for x in e.exceptions:
+                    yield from leaves(x)
+            else:
+                yield e
+        if all(isinstance(e, RuntimeError) and "shutting down" in str(e) for e in leaves(exc)):
+            return 5
     if isinstance(exc, (asyncio.CancelledError,)):
         return 6
     return 9
@@ -303,8 +310,154 @@ def run_impl(inp):
         return _run_standalone(inp)
 
 
+# ----------------------------------------------------------------------------------------------------------------
+# standalone (threaded) servers: one real thread per call, quiescence by sampling, a watchdog on everything
+# ----------------------------------------------------------------------------------------------------------------
+WATCHDOG = 8.0          # real seconds: longest wait for quiescence / for a thread to end
+SAMPLE = 0.0015
+
+
+class _Call:
+    def __init__(self, fn, name):
+        self.exc = None
+        self.done = threading.Event()
+        self.thread = threading.Thread(target=self._run, args=(fn,), name=name, daemon=True)
+        self.thread.start()
+
+    def _run(self, fn):
+        try:
+            fn()
+        except BaseException as exc:  # noqa: BLE001 - the class is the observable
+            self.exc = exc
+        finally:
+            self.done.set()
+
+    def status(self):
+        return _status(self.exc, self.done.is_set())
+
+
+def _snapshot(threads):
+    frames = sys._current_frames()
+    snap = []
+    for t in threads:
+        if not t.is_alive():
+            snap.append(None)
+            continue
+        f = frames.get(t.ident)
+        snap.append((id(f), f.f_lasti) if f is not None else None)
+    return tuple(snap)
+
+
+def _quiesce(threads):
+    """Wait until no thread of the case makes progress any more (all ended, or blocked in a lock / event / select).
+    Returns False if the watchdog expired first."""
+    deadline = time.monotonic() + WATCHDOG
+    same, last = 0, None
+    while time.monotonic() < deadline:
+        time.sleep(SAMPLE)
+        snap = _snapshot(threads)
+        if snap == last:
+            same += 1
+            if same >= 4:
+                return True
+        else:
+            same, last = 0, snap
+    return False
+
+
+def _with_watchdog(fn, default):
+    box = []
+    t = threading.Thread(target=lambda: box.append(fn()), daemon=True)
+    t.start()
+    t.join(WATCHDOG)
+    return box[0] if box else default
+
+
+def _loop_threads(before):
+    return [t for t in threading.enumerate() if t not in before and t is not threading.current_thread()]
+
+
 def _run_standalone(inp):
-    raise NotImplementedError
+    from easynetwork.protocol import DatagramProtocol, StreamProtocol
+    from easynetwork.serializers.line import StringLineSerializer
+    from easynetwork.servers.handlers import AsyncDatagramRequestHandler, AsyncStreamRequestHandler
+    kind, _gates, labels = inp[0], inp[1], inp[2]
+    never = threading.Event()
+
+    class SH(AsyncStreamRequestHandler):
+        async def handle(self, client):
+            req = yield
+            await client.send_packet("re:" + req)
+
+    class DH(AsyncDatagramRequestHandler):
+        async def handle(self, client):
+            req = yield
+            if req == "busy":
+                await asyncio.Event().wait()
+            await client.send_packet("re:" + req)
+
+    logger = logging.getLogger("c18")
+    for quiet in ("easynetwork", "asyncio", "c18"):
+        lg = logging.getLogger(quiet)
+        if not lg.handlers:
+            lg.addHandler(logging.NullHandler())
+        lg.propagate = False
+    if kind == 2:
+        from easynetwork.servers.standalone_tcp import StandaloneTCPNetworkServer
+        srv = StandaloneTCPNetworkServer("127.0.0.1", 0, StreamProtocol(StringLineSerializer()), SH(), logger=logger)
+    else:
+        from easynetwork.servers.standalone_udp import StandaloneUDPNetworkServer
+        srv = StandaloneUDPNetworkServer("127.0.0.1", 0, DatagramProtocol(StringLineSerializer()), DH(), logger=logger)
+    before = set(threading.enumerate())
+    calls, clients, obs = [], [], []
+    stuck = False
+    try:
+        for n, lab in enumerate(labels):
+            if lab == L_SERVE:
+                calls.append(_Call(srv.serve_forever, f"c18-serve-{n}"))
+            elif lab == L_SHUTDOWN:
+                calls.append(_Call(srv.shutdown, f"c18-shutdown-{n}"))
+            elif lab == L_CLOSE:
+                calls.append(_Call(srv.server_close, f"c18-close-{n}"))
+            elif lab == L_CONNECT and kind == 2:
+                if _with_watchdog(srv.is_serving, False):
+                    a = _with_watchdog(srv.get_addresses, ())
+                    if a:
+                        clients.append(socket.create_connection((a[0].host, a[0].port), timeout=WATCHDOG))
+            elif lab == L_DISCONNECT and kind == 2:
+                if clients:
+                    clients.pop().close()
+            elif lab == L_UDPQ and kind == 3:
+                if _with_watchdog(srv.is_serving, False):
+                    a = _with_watchdog(srv.get_addresses, ())
+                    if a:
+                        s = socket.socket(socket.AF_INET, socket.SOCK_DGRAM)
+                        s.sendto(b"busy", (a[0].host, a[0].port))
+                        _quiesce(_loop_threads(before))
+                        s.sendto(b"queued", (a[0].host, a[0].port))
+                        clients.append(s)
+            if not _quiesce(_loop_threads(before)):
+                stuck = True
+            serving = _with_watchdog(lambda: int(srv.is_serving()), 2)
+            listening = _with_watchdog(lambda: int(len(srv.get_addresses()) > 0), 2)
+            # the two queries above run in the loop thread: let it come to rest again
+            _quiesce(_loop_threads(before))
+            obs.append([[c.status() if not stuck else 8 for c in calls], serving, listening])
+    finally:
+        never.set()
+        for c in clients:
+            with contextlib.suppress(Exception):
+                c.close()
+        # tear down whatever is left, under the watchdog
+        t = threading.Thread(target=lambda: contextlib.suppress(BaseException).__enter__() or srv.shutdown(timeout=WATCHDOG), daemon=True)
+        t.start()
+        t.join(WATCHDOG + 1)
+        t = threading.Thread(target=srv.server_close, daemon=True)
+        t.start()
+        t.join(WATCHDOG)
+        for c in calls:
+            c.thread.join(WATCHDOG)
+    return obs
 
 
 # ----------------------------------------------------------------------------------------------------------------
@@ -361,6 +514,21 @@ def cases(tier, rng, escalate):
         for seq in itertools.product(ualpha + [L_UDPQ], repeat=n):
             if L_UDPQ in seq and L_SERVE in seq:
                 yield _mk(1, (0, 0, 0), seq, ["exhaustive"])
+    # standalone (threaded) servers: every sequence of calls up to length 3 (4 when thorough) + client activity
+    slen = 4 if thorough else 3
+    for kind in (2, 3):
+        for n in range(1, slen + 1):
+            for seq in itertools.product([L_SERVE, L_SHUTDOWN, L_CLOSE], repeat=n):
+                yield _mk(kind, (0, 0, 0), seq, ["exhaustive"])
+    for seq in ([0, 3, 1], [0, 3, 2], [0, 3, 2, 4], [0, 3, 2, 0, 4], [0, 3, 2, 1], [0, 3, 3, 2, 4, 4], [0, 3, 4, 1, 0, 1],
+                [0, 3, 2, 0], [0, 1, 0, 3, 2, 4, 0]):
+        yield _mk(2, (0, 0, 0), seq, ["clients"])
+    for seq in ([0, 9, 1], [0, 9, 2], [0, 9, 1, 0, 1], [0, 9, 2, 0]):
+        yield _mk(3, (0, 0, 0), seq, ["clients"])
+    for _ in range(200 if thorough else 25):
+        kind = rng.choice((2, 2, 3))
+        alpha = [L_SERVE, L_SERVE, L_SHUTDOWN, L_CLOSE] + ([L_CONNECT, L_DISCONNECT] if kind == 2 else [])
+        yield _mk(kind, (0, 0, 0), [rng.choice(alpha) for _ in range(rng.randint(4, 6))], ["random"])
     # random longer sequences, all gates
     n = 4000 if thorough else 500
     for _ in range(n):
